@@ -876,6 +876,10 @@ MUTANTS = [
            lambda f, t: f.body.insert(0, stmts("conn = socketutil.SocketConnection(self.sock)")[0])),
     Mutant("C20", "request-options-collected-on-the-class", "C20-R3", GW, None,
            lambda f, t: t.body.append(stmts("class RequestOptions:\n    given = set()\n    def __init__(self, environ):\n        for o in environ.get('HTTP_X_PYRO_OPTIONS', '').split(','):\n            self.given.add(o)")[0])),
+    Mutant("C03", "oneway-thread-without-its-target", "C03-R8", S, "_OnewayCallThread.__init__",
+           lambda f, t: replace_expr(f, lambda e: isinstance(e, ast.Call) and "__init__" in u(e.func), "super(_OnewayCallThread, self).__init__(name='oneway-call')")),
+    Mutant("C03", "oneway-thread-forgets-the-arguments", "C03-R8", S, "_OnewayCallThread.__init__",
+           lambda f, t: delete_stmt(f, lambda s: isinstance(s, ast.Assign) and u(s) == "self.pyro_vargs = vargs")),
     Mutant("C18", "communication-timeout-set-by-the-worker", "C18-R3", ST, "SocketServer_Threadpool.events",
            lambda f, t: (delete_stmt(f, lambda s: isinstance(s, ast.If) and "COMMTIMEOUT" in u(s.test)),
                          find_fn(t, "ClientConnectionJob.__call__").body.insert(0, stmts("if config.COMMTIMEOUT:\n    self.csock.timeout = config.COMMTIMEOUT")[0])), also=("C05",)),
@@ -1415,7 +1419,15 @@ def run(prop, repo, seed):
                 if status == "skipped":
                     results.append({"seed": payload, "verdict": "skipped", "why": msg})
                     continue
-                if expected:
+                recorded = meta.get("detected_by", {}).get(prop) or []
+                if expected and recorded and str(recorded[0]).startswith("ANALYSIS-ERROR"):
+                    # recorded as "the check stops on this change" (a construct it is anchored in was restructured): exit 2 then, exit 2 now - or, after the rules
+                    # learnt the new shape, a report. Never a clean pass.
+                    ok = status in ("error", "violation")
+                    results.append({"seed": payload, "expect": "stops with ANALYSIS-ERROR (or reports)", "verdict": "as recorded" if ok else "PASSES-NOW", "reported": new[:4], "message": msg[:160]})
+                    if not ok:
+                        disagreements.append("seeded change %s used to stop the %s check (anchor restructured) and now passes it silently" % (payload, prop))
+                elif expected:
                     ok = status == "violation"
                     results.append({"seed": payload, "expect": "reported", "verdict": "reported" if ok else "MISSED", "reported": new[:4]})
                     if not ok:
